@@ -101,7 +101,12 @@ def _select_lean(text):
     DRIVER = os.path.join(LEAN, '.lake', 'build', 'bin', 'driver')
     if not os.path.isdir(LEAN):
         tmp = LEAN + '.tmp%d' % os.getpid()
-        shutil.copytree(os.path.join(VERIF, 'lean'), tmp, symlinks=True, ignore=shutil.ignore_patterns('Audit', '.build.lock', 'built.digest', 'audit-*.json'))
+        try:
+            shutil.copytree(os.path.join(VERIF, 'lean'), tmp, symlinks=True,
+                            ignore=shutil.ignore_patterns('Audit', '.build.lock', 'built.digest', 'built.failures.json',
+                                                          'audit-*.json', '*.tmp*'))
+        except shutil.Error:
+            pass        # a file of the main build vanished / changed while it was copied: lake rebuilds what is missing
         try:
             os.replace(tmp, LEAN)
         except OSError:
